@@ -25,6 +25,13 @@ chk('C14', "Coq theorems: exact effect of a vote record on an active validator i
   TB + " Slash fractions assumed in (0,1) (Params.Validate).",
   "Coq proof (step characterisations + permanence invariant over histories) + differential histories + tombstone/downtime monitors")
 
+chk('C01', "Coq theorems for EVERY state, bitmap, signer set, action and payload: an accepted vote is for the current proposer/sequence/epoch, verifies (symbolic BLS) over the sign-doc of exactly this chain/sequence/epoch/action/proposer/payload under the proposer's key plus one key per marked bit of distinct-position current voters, reaches ceil(2(n+1)/3) (C01_quorum, C01_threshold_ceil), has no mark beyond the voter list (C01_marks_denote_voters, via a popcount = marked-positions lemma); every accepted voted operation passed that verification over its own payload (C01_effect_needs_quorum) and a non-accepted one returns the state unchanged (C01_no_quorum_no_effect). Tied to VerifyProposal and the five handlers by differential histories with real BLS keys.",
+  TB + " BLS verification is symbolic (idealised); SHA-256 abstract in theorems.",
+  "Coq proof (case analysis of the verification function, bitmap counting lemma by induction) + differential histories with real aggregate signatures + quorum monitor")
+chk('C02', "Coq theorems over EVERY history of the 14 relayer/bridge operations: per-step sequence accounting (C02_step), final sequence = initial + number of accepted voted proposals (C02_seq_counts), acceptance only for the current sequence/epoch/proposer (C02_needs_current_context), hence no vote for an already consumed sequence is ever accepted again (C02_no_replay), and failed operations return the state unchanged (C02_failure_is_identity).",
+  TB + " Rollback of failed transactions is cosmos-sdk behaviour, exercised by the harness through a cache-wrapped context.",
+  "Coq proof (per-operation frame lemmas, induction over histories) + differential histories with verbatim replays of accepted votes + sequence monitor")
+
 import sys
 props = [json.loads(l)['id'] for l in open('/verif/properties.jsonl')]
 m = {"version": 1, "setup_cmd": "bin/setup",
